@@ -41,6 +41,14 @@ func indentAndWrite(buf *bytes.Buffer, dst []byte, src []byte, prefix, indentStr
 	if err != nil {
 		return nil, err
 	}
+	// like encoding/json, keep the white space that follows the value
+	// (src ends with the nul sentinel)
+	end := len(src) - 1
+	tail := end
+	for tail > 0 && isWhiteSpace[src[tail-1]] {
+		tail--
+	}
+	dst = append(dst, src[tail:end]...)
 	if _, err := buf.Write(dst); err != nil {
 		return nil, err
 	}
